@@ -122,8 +122,8 @@ def _msg_desc(e, env):
     if e is None:
         return "<queue>"
     t = ast.unparse(e)
-    if t in env:
-        v = env[t]
+    if t in env or isinstance(e, ast.Call):
+        v = env[t] if t in env else e          # (the answer may be built in place, without a local)
         if isinstance(v, ast.Call) and call_name(v).endswith("create_answer"):
             arg = kwarg(v, "msg") or (v.args[0] if v.args else None)
             return f"create_answer({ast.unparse(arg) if arg is not None else ''})"
@@ -137,6 +137,8 @@ def _effect(repo, m, ci, call, env, effects, bound=None):
     n = call_name(call)
     if n == "self.send_message":
         arg = kwarg(call, "msg") or (call.args[0] if call.args else None)
+        if isinstance(arg, ast.Call):
+            _effect(repo, m, ci, arg, env, effects)       # the argument is evaluated first
         effects.append(("send", _msg_desc(arg, env)))
     elif n == "self.notify_postprocess_message" or n.endswith("postprocess_recv_messages.put"):
         # delivery to the application: through the helper, or its body written in place
